@@ -76,7 +76,7 @@ func TestEngine(t *testing.T) {
 		},
 		Real: []string{"fclient.ResolveServer", "fclient.LookupWellKnown", "spec.ParseAndValidateServerName", "fclient.Client / destinationTripper (RoundTrip, getTransport, reaper)", "allowDenyNetworksControl / isAllowed / inRange", "fclient.DNSCache (lookup, DialContext)", "net/http client and server", "crypto/tls", "Go's pure DNS resolver (wire protocol)"},
 		Stub: []string{"DNS server (miekg/dns responder over net.Pipe)", "http.DefaultTransport (well-known endpoint, workload 1)", "IP network (verifrt.DialHook: listeners, refused / black-holed addresses, net.Pipe connections)", "HTTPS servers (in-process http.Server over pipes)", "DNSCache resolver (scripted, workload 3)", "clock (synctest)", "goroutine choice (token scheduler at resolver / dial / operation boundaries)"},
-		Assumptions: []string{"testing/synctest fake clock and quiescence (Go 1.26.8)", "interleavings explored at stub (resolver, dial, operation) granularity",
+		Assumptions: []string{"testing/synctest fake clock and quiescence (Go 1.26.8)", "interleavings explored at stub (resolver, dial, operation) granularity, and at lock-boundary granularity (instrumented Lock / Unlock of package fclient) in the transport-cache workload and in half of the DNS-cache runs",
 			"the dial hook reproduces the kernel path of net.Dialer: resolve, then per candidate address the dialer's ControlContext with network tcp4/tcp6 and the literal ip:port, IPv4-mapped addresses dialled as IPv4",
 			"SRV records of equal priority may be used in any order; SRV lookup errors other than not-found may either fall back to port 8448 or continue with the next SRV service"},
 	})
